@@ -57,6 +57,16 @@ func classifyExits(loop map[*ssa.BasicBlock]bool) []loopExit {
 						e.kind = "exhausted" // range over an integer / constant-length array
 					}
 				}
+				// linked-list walk: for e := l.Front(); e != nil; e = ...
+				if (cv.Op == token.NEQ && si == 1 || cv.Op == token.EQL && si == 0) && (isNilConst(cv.X) || isNilConst(cv.Y)) {
+					v := cv.X
+					if isNilConst(v) {
+						v = cv.Y
+					}
+					if ph, ok := v.(*ssa.Phi); ok && typeShort(ph.Type()) == "list.Element" {
+						e.kind = "exhausted"
+					}
+				}
 			case *ssa.Extract:
 				if _, ok := cv.Tuple.(*ssa.Next); ok && cv.Index == 0 && si == 1 {
 					e.kind = "exhausted"
